@@ -20,7 +20,8 @@ def plan(tier, seed):
         else:
             parts_ = [(s, s + 1, r, r + 1) for s in range(7) for r in range(3)]
         for s0lo, s0hi, r0lo, r0hi in parts_:
-            kk = k if (q or not two) else 3        # two tag slots: K=3 (the space is 7 times larger)
+            # K=4 where the space allows it: one tag slot and no extension dimension; otherwise K=3
+            kk = k if (q or (not two and not ext)) else 3
             conds.append(Cond("c20-%s-%s-req%d-slots%d-k%d-s%d-r%d" % (role, ext or "noext", req, 2 if two else 1, kk, s0lo, r0lo),
                               F, "c20_k%d" % kk,
                               env={"C20_ROLE": role, "C20_EXT": ext, "C20_REQUIRE": req, "C20_TWO_SLOTS": two,
@@ -34,7 +35,7 @@ def plan(tier, seed):
                                        "of 6 kinds (no parameter; string / number / string-or-list parameter; string parameter "
                                        "restricted to a value set; two tags of which only one takes a parameter) or absent; "
                                        "1-2 required arguments of type string / number / string-or-list" % ("1-2" if not q else "0-1"),
-                        "uses": "K=%d argument tokens from a 10-entry vocabulary (every tag of the slots, upper-case and unknown "
+                        "uses": "K=%d (thorough: K=4 for one tag slot without extension, else K=3) argument tokens from an 11-entry vocabulary (every tag of the slots, upper-case and unknown "
                                 "tags, string, restricted value, list, number, terminator)" % k},
                 outside=["definitions without a required argument (excluded by the property)", "more than 2 tag slots / 2 required arguments"],
                 assumptions=COMMON_ASSUME[2:4] + ["R1 is instantiated from the same symbolic definition (refs/ref_sieve.py CMDS['xcmd'])",
